@@ -26,7 +26,7 @@ SingleMarks == {91, 93, 123, 125, 40, 41, 43, 45, 42, 47, 37, 94, 58}       \* [
 At(s, i) == IF i <= Len(s) THEN s[i] ELSE -1
 IsDS(c) == IsDigit(c) \/ c = Star
 
-\* length of a time pattern starting at i (0 if none):  (*|*d|d*|d|dd) : (dd|d*|*d|*)  followed by space or end
+\* length of a time pattern starting at i (0 if none):  (*|*d|d*|d|dd) : (dd|d*|*d|*)  followed by space, a comment or the end
 HourLen(s, i) == IF IsDS(At(s, i)) /\ IsDS(At(s, i + 1)) /\ ~(At(s, i) = Star /\ At(s, i + 1) = Star) /\ At(s, i + 2) = Colon THEN 2
                  ELSE IF IsDS(At(s, i)) /\ At(s, i + 1) = Colon THEN 1 ELSE 0
 MinLen(s, j) == IF IsDS(At(s, j)) /\ IsDS(At(s, j + 1)) /\ ~(At(s, j) = Star /\ At(s, j + 1) = Star) THEN 2
@@ -34,7 +34,7 @@ MinLen(s, j) == IF IsDS(At(s, j)) /\ IsDS(At(s, j + 1)) /\ ~(At(s, j) = Star /\ 
 PatLen(s, i) == LET h == HourLen(s, i)
                     m == IF h = 0 THEN 0 ELSE MinLen(s, i + h + 1)
                     e == i + h + 1 + m
-                IN  IF h > 0 /\ m > 0 /\ (e > Len(s) \/ IsSpace(At(s, e))) THEN h + 1 + m ELSE 0
+                IN  IF h > 0 /\ m > 0 /\ (e > Len(s) \/ IsSpace(At(s, e)) \/ At(s, e) = Hash) THEN h + 1 + m ELSE 0     \* (a comment may follow directly)
 
 RECURSIVE DigitRun(_, _)
 DigitRun(s, i) == IF i <= Len(s) /\ IsDigit(s[i]) THEN 1 + DigitRun(s, i + 1) ELSE 0
